@@ -1,4 +1,5 @@
 import PyTrie.Lemmas.WorldMono
+import PyTrie.Lemmas.WorldComplete
 import PyTrie.Props.C03
 /-! # C04 — non-pruning tries never lose or alter history: old roots stay readable
 
@@ -57,5 +58,44 @@ theorem old_root_still_readable (H : Bytes → Bytes) (hlen : ∀ b, (H b).lengt
 
 /-- `Dict.get?` of the world model and `lookup` of the Layer-D reader are the same function -/
 theorem lookup_eq_get? (d : Dict Bytes) (h : Hash) : HexD.lookup d h = Dict.get? d h := rfl
+
+/-! ## The completeness invariant (proved after the first round)
+
+`Complete d T`: the root pointer is the hash of the tree, the root node and every hashed subtree are
+stored under their hashes with their encodings. -/
+
+/-- **a non-pruning `set` / `delete` on a complete database never raises, computes the tree-level
+    operation, keeps every old binding and leaves a complete database for the new root** (no write fault
+    injected; `NoClobber` is the run-level no-collision predicate for this operation's writes) -/
+theorem op_keeps_complete (Hs : Hashing) (blankRootHash : Hash) (T : TrieSt) (hp : T.prune = false) (hc : Canon T.tree)
+    (key : Bytes) (val : Option Bytes) (s : OpSt) (hcache : s.store.cache = none) (hfa : s.store.failAfter = none)
+    (hcomp : Complete Hs blankRootHash s.store.base T) (hrs : RefSound Hs T.tree (nibs key))
+    (hnc : NoClobber s.store.base (opWrites Hs T key val))
+    (hblank : isBlank (opTree Hs T key val).1 = false → Hs.hashOf (opTree Hs T key val).1 ≠ blankRootHash) :
+    ∃ T', (opSetDel Hs blankRootHash T key val s).2 = .ok T' ∧
+      T'.tree = (opTree Hs T key val).1 ∧ T'.prune = false ∧
+      Preserved s.store.base (opSetDel Hs blankRootHash T key val s).1.store.base ∧
+      Complete Hs blankRootHash (opSetDel Hs blankRootHash T key val s).1.store.base T' := by
+  obtain ⟨T', h1, _, h3, h4, h5⟩ := opSetDel_complete Hs blankRootHash T hp hc key val s hcache hfa hcomp hrs hnc hblank
+  refine ⟨T', h1, ?_, h3, h4, h5⟩
+  -- the new tree is the first component of `opTree` by definition of the executor
+  unfold opSetDel at h1
+  simp only at h1
+  unfold opCore at h1
+  split at h1
+  · cases h1
+  · split at h1
+    · cases h1
+    · split at h1
+      · cases h1
+      · split at h1
+        · cases h1
+        · simp only [Except.ok.injEq] at h1
+          rw [← h1]
+
+/-- every trie that was complete stays complete whatever is added later (other tries on the same
+    database, later operations, batches): bindings are only ever preserved -/
+theorem complete_survives (Hs : Hashing) (blankRootHash : Hash) (d d' : Dict Bytes) (hp : Preserved d d') (T : TrieSt)
+    (h : Complete Hs blankRootHash d T) : Complete Hs blankRootHash d' T := complete_mono Hs blankRootHash d d' hp T h
 
 end PyTrie.Props.C04
